@@ -11,6 +11,7 @@ def gen_case(rng, thorough):
     hier = X.gen_hierarchy(rng, nhooks)
     ncls = len(hier)
     ops, next_id, next_obj, live = [], 0, 0, []
+    shared = False
     n_ops = rng.randint(4, 25 if not thorough else 60)
     for _ in range(n_ops):
         r = rng.random()
@@ -28,6 +29,14 @@ def gen_case(rng, thorough):
             else:
                 v = ('none',) if rng.random() < 0.35 else ('int', 100 * (next_id + 1))
                 im = dict(owner=owner, hook=hook, tier=tier, wrapper=False, guarded=False, post=None, prog=('const', v))
+            same = [o for o in ops if o[0] == 'register' and o[2]['hook'] == hook and (not o[2]['wrapper'] or nwrap < 5)]
+            if same and rng.random() < 0.2:
+                # the same Python function object registered once more on this hook: in another tier, for another class or at a later
+                # position of the same tier (a shared default); every registration stays a registration of its own
+                src = rng.choice(same)
+                im = dict(src[2], owner=owner if rng.random() < 0.5 else src[2]['owner'], tier=rng.choice([tier, src[2]['tier']]),
+                          same_as=src[2].get('same_as', src[1]))
+                shared = True
             ops.append(('register', next_id, im))
             live.append(next_id)
             next_id += 1
@@ -54,7 +63,7 @@ def gen_case(rng, thorough):
             ops.append(('newobj', next_obj, c))
             ops.append(('read', next_obj, h))
             next_obj += 1
-    return dict(hier=hier, nhooks=nhooks, ops=ops, cmp_trace=True)
+    return dict(hier=hier, nhooks=nhooks, ops=ops, cmp_trace=not shared)   # a shared function reports the id of its first registration
 
 
 # ---- independent oracle: the documented order computed from the registration log ---------------------
